@@ -30,6 +30,13 @@ class Table:
     def fn(self, name):
         return self.F.fn(self.impl_prefix + name)
 
+    def fn_by_short(self, short_name):
+        """the function of this table (methods, entry API, free functions of the module) with that resolved name"""
+        idx = getattr(self, "_by_short", None)
+        if idx is None:
+            idx = self._by_short = {f.short: f for f in self.fns}
+        return idx.get(short_name)
+
     # ---- slot writes (HIR) ------------------------------------------------------------------------
     def is_slot_ty(self, ty):
         t = ty.replace("&mut ", "").replace("*mut ", "").replace("&", "").strip()
@@ -351,12 +358,9 @@ def rule_stale(T, rid):
     cg = F.callgraph
     adj = T.impl_prefix + "adjust_capacity"
     realloc = cg.callers_closure({adj})
-    for f in T.fns:
-        if not f.mir:
-            continue
-        du = DefUse(f)
-        cfg = f.cfg
-        # definitions of "slot index" values: (local, defining block); copies into user variables are definitions too
+    def index_values(f, params):
+        """definitions of "slot index" values in f: (local, defining block) of results of find_ind, of the parameters through
+        which a caller hands in such an index, and of their copies into user variables"""
         src_defs = []
         idx_locals = set()
         for bi, t in mu.calls(f):
@@ -364,9 +368,10 @@ def rule_stale(T, rid):
             if any(n == T.impl_prefix + "find_ind" for n in nm) and not t["dest"]["p"]:
                 src_defs.append((t["dest"]["l"], t["target"] if t["target"] is not None else bi))
                 idx_locals.add(t["dest"]["l"])
-        if not src_defs:
-            continue
-        changed = True
+        for l in sorted(params):
+            src_defs.append((l, 0))
+            idx_locals.add(l)
+        changed = bool(src_defs)
         while changed:
             changed = False
             for bi, b in enumerate(f.blocks):
@@ -378,6 +383,39 @@ def rule_stale(T, rid):
                             if st["place"]["l"] not in idx_locals:
                                 idx_locals.add(st["place"]["l"])
                             changed = True
+        return src_defs, idx_locals
+
+    # a helper that is handed a slot index (`make_room(.., slot)`) holds it exactly like the function that computed it:
+    # its parameter is a definition of an index value (callers first, to a fixpoint over the few functions of the table)
+    idx_params = {}
+    changed = True
+    rounds = 0
+    while changed and rounds < 4:
+        changed = False
+        rounds += 1
+        for g in T.fns:
+            if not g.mir:
+                continue
+            _sd, gl = index_values(g, idx_params.get(g.short, ()))
+            for _bi, t in mu.calls(g):
+                for n in callee_names(t["func"]):
+                    h = T.fn_by_short(n)
+                    if h is None or not h.mir or n == T.impl_prefix + "find_ind":
+                        continue
+                    for pos, a in enumerate(t["args"]):
+                        al = op_local(a)
+                        if al is not None and al in gl and h.local_ty(pos + 1) == "usize" and pos + 1 <= h.mir["arg_count"]:
+                            if pos + 1 not in idx_params.setdefault(h.short, set()):
+                                idx_params[h.short].add(pos + 1)
+                                changed = True
+    for f in T.fns:
+        if not f.mir:
+            continue
+        du = DefUse(f)
+        cfg = f.cfg
+        src_defs, idx_locals = index_values(f, idx_params.get(f.short, ()))
+        if not src_defs:
+            continue
         def_blocks = {}
         for l in idx_locals:
             def_blocks[l] = set(d[0] if d[1] != "term" else d[0] for d in du.defs.get(l, []))
@@ -416,9 +454,10 @@ def rule_stale(T, rid):
         if found:
             l, ct, ub = found
             res.append(bad(rid_full(P, rid), key, f.loc(ct.get("ln")),
-                           "%s::%s computes a slot index with find_ind, then calls %s (which can reallocate and rehash), then keeps using "
+                           "%s::%s %s, then calls %s (which can reallocate and rehash), then keeps using "
                            "the old index in the new arrays: the entry is written to a slot its key does not probe to" % (
-                               T.name, f.name, callee_names(ct["func"])[0].rsplit("::", 1)[-1])))
+                               T.name, f.name, "is handed a slot index computed with find_ind" if l in idx_params.get(f.short, ()) else
+                               "computes a slot index with find_ind", callee_names(ct["func"])[0].rsplit("::", 1)[-1])))
         else:
             res.append(ok(rid_full(P, rid), key, f.loc(), "no use of a slot index after a call that can reallocate"))
     return res
@@ -428,20 +467,43 @@ def rule_stale(T, rid):
 # G: load-factor guard on every insertion path     (C12.G, C13.G)
 # ---------------------------------------------------------------------------------------------------
 
-def growth_check_blocks(T, f):
-    """blocks of f that evaluate the growth condition: call needs_grow/grow/reserve, or compare floats (load factor)"""
+def growth_check_blocks(T, f, depth=0):
+    """blocks of f that evaluate the growth condition: call needs_grow/grow/reserve, or compare floats (load factor), or
+    call a helper of the same table that evaluates the growth condition on every path to its return (the test may live
+    in a callee the insertion path has to go through: `if self.is_full() {..}`, `let i = self.make_room(..)?`)"""
+    cache = getattr(f, "_growth_checks", None)
+    if cache is not None and cache[0] == T.name and depth == 0:
+        return cache[1]
     out = set()
     for bi, b in enumerate(f.blocks):
         t = b["term"]
-        if t["k"] == "call" and any(n.rsplit("::", 1)[-1] in ("needs_grow", "grow", "reserve") and n.startswith(T.impl_prefix) for n in callee_names(t["func"])):
-            out.add(bi)
+        if t["k"] == "call":
+            names = callee_names(t["func"])
+            if any(n.rsplit("::", 1)[-1] in ("needs_grow", "grow", "reserve") and n.startswith(T.impl_prefix) for n in names):
+                out.add(bi)
+            elif depth < 3:
+                for n in names:
+                    g = T.fn_by_short(n)
+                    if g is not None and g is not f and g.mir and evaluates_growth_on_every_path(T, g, depth + 1):
+                        out.add(bi)
+                        break
         for st in b["stmts"]:
             if st["k"] == "assign" and st["rv"]["k"] == "bin" and st["rv"]["op"] in ("Gt", "Lt", "Ge", "Le"):
                 for side in ("l", "r"):
                     p = op_place(st["rv"][side])
                     if p is not None and not p["p"] and f.local_ty(p["l"]) in ("f32", "f64"):
                         out.add(bi)
+    if depth == 0:
+        f._growth_checks = (T.name, out)
     return out
+
+
+def evaluates_growth_on_every_path(T, g, depth=1):
+    """summary of a helper of the table: every path from its entry to a return (error returns included) passes a block
+    that evaluates the growth condition. A caller that must go through such a call has evaluated the condition."""
+    checks = growth_check_blocks(T, g, depth)
+    rets = g.cfg.return_blocks()
+    return bool(checks) and bool(rets) and g.cfg.every_path_passes(0, rets, checks)
 
 
 def rule_guard(T, rid):
@@ -539,3 +601,97 @@ def rule_guard(T, rid):
     if n == 0:
         raise AnchorMissing("insertion sites of %s" % T.name)
     return res
+
+
+# ---------------------------------------------------------------------------------------------------
+# the removal and the private functions it calls      (C12.B / C13.R structure part)
+# ---------------------------------------------------------------------------------------------------
+
+def direct_callees(T, f):
+    """(function of the table, call node) for every call in f (closures excluded) that resolves to a function of the table"""
+    out = []
+    stack = [f.hir["body"]]
+    while stack:
+        x = stack.pop()
+        if x is None or x.get("k") == "closure":
+            continue
+        if x.get("k") in ("call", "mcall"):
+            for n in hir_callee(x):
+                g = T.fn_by_short(n)
+                if g is not None and g is not f and g.hir is not None:
+                    out.append((g, x))
+                    break
+        stack.extend(hir_children(x))
+    return out
+
+
+def has_shift_loop(T, g):
+    """a loop in g that fills slots (moves the marker of a following entry into an earlier slot)"""
+    ws = T.slot_writes(g)
+    return any(w["kind"] == "occupy" and w["in_loop"] for w in ws) and any(x.get("k") == "loop" for x in hir_walk(g.hir["body"]))
+
+
+def shifting_function(T, f):
+    """where the back-shift loop of the removal f lives: f itself, or a function of the table that f calls (the loop may
+    have been extracted: `let hole = self.shift_back(i); slots[hole] = EMPTY`). -> (g, call node | None) or (None, None)"""
+    if has_shift_loop(T, f):
+        return f, None
+    for g, call in direct_callees(T, f):
+        if has_shift_loop(T, g):
+            return g, call
+    return None, None
+
+
+def write_index(w):
+    """index expression of a slot write found by Table.slot_writes (`a[i] = v`, `*p.add(i) = v`, `ptr::write(p.add(i), v)`)"""
+    x = w["expr"]
+    dst = hir_strip(x["l"]) if x.get("k") == "assign" else (hir_strip(x["args"][0]) if x.get("k") == "call" and x.get("args") else None)
+    if dst is None:
+        return None
+    if dst.get("k") == "index":
+        return dst["idx"]
+    if dst.get("k") == "un" and dst["op"] == "Deref":
+        dst = hu.strip_casts(dst["e"])
+    if dst is not None and dst.get("k") == "mcall" and dst["name"] in ("add", "offset", "wrapping_add") and len(dst["args"]) == 1:
+        return dst["args"][0]
+    return None
+
+
+def final_hole_verdict(T, f, g, call, vac):
+    """The loop was extracted into g, called from f at `call`; `vac` are f's single-slot EMPTY writes after the call. The
+    slot that is emptied must be the final hole: g returns its hole variable and f empties the slot the call returned.
+    -> ('ok'|'bad'|'undecided', message, line)"""
+    from cao import backshift as bs
+    pick = bs.pick_loop(g)
+    ln = vac[0]["expr"]["ln"]
+    if pick is None:
+        return "undecided", "the loop of %s is not recognised as a back-shift loop (no `hole = cursor` move)" % g.name, ln
+    hole = pick[2]
+    ret = bs.returns_local(g, hole)
+    if ret is None:
+        return "undecided", "%s does not return the final hole; how %s learns which slot to empty is not established" % (g.name, f.name), ln
+    if not ret:
+        return "bad", ("%s shifts the following entries back but does not return the final position of the hole: %s empties a "
+                       "slot that may still hold a moved entry while the slot the last entry was moved from stays occupied "
+                       "(the entry is visible twice / another one is lost)" % (g.name, f.name)), ln
+    inits = hu.let_inits(f)
+    verdicts = []
+    for w in vac:
+        ix = write_index(w)
+        seen = set()
+        while ix is not None:
+            ix = hu.strip_casts(ix)
+            if ix is call:
+                break
+            lid = hir_local_id(ix)
+            if lid is None or lid in seen or len(inits.get(lid, [])) != 1:
+                break
+            seen.add(lid)
+            ix = inits[lid][0]
+        verdicts.append(True if ix is call else (None if ix is None or hir_local_id(ix) is None or len(inits.get(hir_local_id(ix), [])) > 1 else False))
+    if any(v is True for v in verdicts):
+        return "ok", "back-shift loop (in %s) followed by emptying the final hole it returns" % g.name, ln
+    if all(v is False for v in verdicts):
+        return "bad", ("%s returns the final position of the hole, but %s empties another slot: the slot the last entry was moved "
+                       "from stays occupied (the entry is visible twice) and a live entry is wiped" % (g.name, f.name)), ln
+    return "undecided", "the slot emptied after %s is not established to be the hole it returns" % g.name, ln
